@@ -501,9 +501,20 @@ class SpecEval:
         bound, guards = [], []
         saved = dict(self.binders)
         for comp in g.generators:
+            if isinstance(comp.target, ast.Name) and isinstance(comp.iter, ast.Call) \
+                    and isinstance(comp.iter.func, ast.Name) and comp.iter.func.id == 'keys':
+                # for k in keys(d): k ranges over all values, guarded by membership in the dict
+                d = to_v(self.ev(comp.iter.args[0]))
+                v = fresh(comp.target.id, V)
+                self.binders[comp.target.id] = v
+                bound.append(v)
+                guards.append(T.dhas(d, v))
+                for c in comp.ifs:
+                    guards.append(to_bool(self.ev(c)))
+                continue
             if not (isinstance(comp.target, ast.Name) and isinstance(comp.iter, ast.Call)
                     and isinstance(comp.iter.func, ast.Name) and comp.iter.func.id == 'range'):
-                raise NotFormed('spec: quantify as `for i in range(a, b)`')
+                raise NotFormed('spec: quantify as `for i in range(a, b)` or `for k in keys(d)`')
             ra = [to_int(self.ev(a)) for a in comp.iter.args]
             lo, hi = (z3.IntVal(0), ra[0]) if len(ra) == 1 else (ra[0], ra[1])
             v = fresh(comp.target.id, T.I)
